@@ -153,6 +153,31 @@ def build(names, shape, traits, mode, with_attrs, const_name=None):
     return sx.inv_derive(kw + sx.a_derive_ex(sx.dx(tl)) + ' ' + it[len(kw):])
 
 
+# operators derived from a user-written `impl` whose const parameter is named like a local the expansion might introduce
+# (a const parameter shares the namespace of `let` bindings and function arguments)
+IMPL_CONST_NAMES = ['Kq'] + CONST_BINDER_NAMES + ['out', 'result', 'ret', 'res', 'tmp', 'output', 'val', 'me', 'r', 'l', 'target',
+                                                'cloned', 'copy', 's', 'lhs_', 'rhs_', 'this_', 'new', 'tmp_0', 'self_']
+
+
+def impl_programs():
+    out = []
+    for bi, (attr, item, body) in enumerate([
+        ('Add', 'impl<const NAME: usize> ::core::ops::AddAssign<u32> for Zq<NAME> { fn add_assign(&mut self, r_: u32) { self.0 = self.0 * 10 + r_ + NAME as u32; } }',
+         'let a = Zq::<3>(1) + 2u32; let b = &Zq::<3>(1); println!("@ID@\\tv\\t{}", a.0 + b.0);'),
+        ('Sub, SubAssign', 'impl<const NAME: usize> ::core::ops::Sub<Zq<NAME>> for Zq<NAME> { type Output = Zq<NAME>; fn sub(self, r_: Zq<NAME>) -> Zq<NAME> { Zq(self.0 * 10 + r_.0 + NAME as u32) } }',
+         'let (a, b) = (Zq::<3>(1), Zq::<3>(2)); let c = &a - &b; let d = a.clone() - &b; let e = &a - b.clone(); let mut f = a.clone(); f -= &b; f -= b; println!("@ID@\\tv\\t{} {} {} {}", c.0, d.0, e.0, f.0);'),
+        ('Mul', 'impl<const NAME: usize> ::core::ops::MulAssign<&Zq<NAME>> for Zq<NAME> { fn mul_assign(&mut self, r_: &Zq<NAME>) { self.0 = self.0 * 10 + r_.0 + NAME as u32; } }',
+         'let (a, b) = (Zq::<3>(1), Zq::<3>(2)); let c = a * &b; println!("@ID@\\tv\\t{}", c.0);'),
+    ]):
+        for ni, name in enumerate(IMPL_CONST_NAMES):
+            cid = 7 * 10 ** 6 + 100 * bi + ni
+            src = ['#[derive(Clone)] pub struct Zq<const NAME: usize>(pub u32);'.replace('NAME', name),
+                   '#[::derive_ex::derive_ex(%s)]' % attr, item.replace('NAME', name),
+                   'pub fn run() { %s }' % body.replace('@ID@', str(cid))]
+            out.append((cid, bi, name, '\n'.join(src), '#[derive_ex(%s)] %s' % (attr, item.replace('NAME', name))))
+    return out
+
+
 class C13(Prop):
     pid = 'C13'
     tag = 'all generated impls (hostile names)'
@@ -278,6 +303,14 @@ class C13(Prop):
             if r.meta['ri'] != 0:
                 shadow.append(l2.Module(r.cid, '#[allow(unused_imports)] use super::shadow::*;\n' + uf + head + r.item + '\npub fn run() {}', r))
                 nostd.append(l2.Module(r.cid, uf + head + r.item + '\npub fn run() {}', r))
+        class _Lit:
+            def __init__(self, text, bi, name):
+                self.text = text
+                self.meta = dict(ri=0 if name == 'Kq' else 1, gid=10 ** 6 + bi, const_name=None if name == 'Kq' else name, names=NEUTRAL)
+            def input_text(self):
+                return self.text
+        for cid, bi, name, src, text in impl_programs():
+            plain.append(l2.Module(cid, src, _Lit(text, bi, name)))
         nb = 8
         pb = [('c13p_%d' % k, plain[k::nb]) for k in range(nb)]
         sb = [('c13s_%d' % k, shadow[k::nb]) for k in range(nb)]
@@ -314,12 +347,35 @@ class C13(Prop):
                 if scope == 'plain scope':
                     b = base.get(r.meta['gid'])
                     got = obs.get(str(mo.cid), [])
-                    if b and b[0] and r.meta['const_name'] is None and got != b[1]:
+                    if b and b[0] and (r.meta['const_name'] is None or r.meta['gid'] >= 10 ** 6) and got != b[1]:
                         fail(r, scope, [list(x) for x in b[1]], [list(x) for x in got])
                         continue
                 validated += 1
                 if len(samples) < 3 and scope == 'prelude shadowed':
                     samples.append(dict(scope=scope, input=r.input_text()[:300]))
+        # impl-level derives, model-free: every name BOUND by the generated impls (`let`, function and closure parameters) is
+        # either the user's (it occurs in the input) or in the reserved `__` namespace
+        import re
+        raw = R.run_raw([('A', text[len('#[derive_ex('):text.index(')] ')], text[text.index(')] ') + 3:], None)
+                         for cid, bi, name, src, text in impl_programs() if name == 'Kq'] +
+                        [('A', 'Neg, Not', 'impl ::core::ops::Neg for &Zq { type Output = Zq; fn neg(self) -> Zq { Zq(1) } }', None),
+                         ('A', 'BitOrAssign, BitOr', "impl<'q, Pq: Clone> ::core::ops::BitOr<&'q Pq> for &Zq<Pq> where Pq: Copy { type Output = Zq<Pq>; fn bitor(self, v: &'q Pq) -> Zq<Pq> { todo!() } }", None)])
+        for r in raw:
+            user = set(re.findall(r'[A-Za-z_]\w*', r.item))
+            for p in r.actual:
+                if p[0] != 'IMPL':
+                    continue
+                text = ' '.join(p[1:])
+                bound = [m[-1] for m in re.findall(r'\blet (mut )?(\w+)', text)] + \
+                        [m[-1] for m in re.findall(r'[(,] (mut )?([A-Za-z_]\w*) :(?! :)', text)] + \
+                        re.findall(r'\| (?:mut )?([A-Za-z_]\w*) [|,:]', text)
+                alien = sorted(set(b for b in bound if not b.startswith('__') and b not in user and b != 'self'))
+                if alien:
+                    failures.append(dict(**{'class': 'generated-binder-outside-reserved-namespace', 'mode': 'impl-level'},
+                                         input='#[derive_ex(%s)] %s' % (r.attr, r.item), expected='every introduced binder starts with `__`',
+                                         observed=alien))
+                else:
+                    validated += 1
         for name, _ in pb + sb + nbat + vb:
             l2.cleanup(name)
         return dict(evaluations=len(plain) + len(shadow) + len(nostd) + len(viam), validated=validated,
